@@ -1143,10 +1143,93 @@ impl<'a, 'ast> Visit<'ast> for Rewriter<'a> {
             }
             Expr::Match(mm) if mm.arms.iter().any(|a| a.guard.is_some()) => {
                 // the installed Verus is incomplete on `match` arms with an `if` guard over `&mut` state (a trivially correct function fails:
-                // see DESIGN.md 9), so a failure in a function that contains one proves nothing
+                // see DESIGN.md 9). R27: `P if G => B` becomes `P => if G { B } else { E }` where E is the body of the arm the value falls
+                // through to - only when that arm is unambiguous: the first later arm that can match a value of P's variant, unguarded and
+                // binding nothing. Otherwise the function is marked and its failures are not believed.
+                fn heads(p: &syn::Pat, out: &mut Vec<String>) -> bool {     // variant names a pattern can match; false = cannot tell
+                    match p {
+                        syn::Pat::Or(o) => o.cases.iter().all(|c| heads(c, out)),
+                        syn::Pat::Path(pp) => { out.push(pp.path.segments.last().map(|s| s.ident.to_string()).unwrap_or_default()); true }
+                        syn::Pat::TupleStruct(ts) => { out.push(ts.path.segments.last().map(|s| s.ident.to_string()).unwrap_or_default()); true }
+                        syn::Pat::Struct(st) => { out.push(st.path.segments.last().map(|s| s.ident.to_string()).unwrap_or_default()); true }
+                        syn::Pat::Ident(pi) if pi.subpat.is_none() => { out.push(pi.ident.to_string()); true }   // a unit variant imported by name, or a binding
+                        syn::Pat::Paren(pp) => heads(&pp.pat, out),
+                        _ => false,
+                    }
+                }
+                fn binds(p: &syn::Pat) -> bool { let mut v = vec![]; collect_pat_idents(p, &mut v); v.iter().any(|n| n.chars().next().map(|c| c.is_lowercase() || c == '_').unwrap_or(false)) }
                 let (s0, _) = self.src.range(mm.span());
-                self.unmodelled_closures += 1;
-                self.notes.push(format!("match with a guarded arm at {}:{}: the verifier is incomplete on guards (failures in this function are not believed)", self.src.rel, self.src.line_of(s0)));
+                // special case: the FIRST arm is `_ if G => B` (nothing else guarded): `if G { B } else { match e { the other arms } }`
+                if mm.arms.len() >= 2 && matches!(mm.arms[0].pat, syn::Pat::Wild(_)) && mm.arms[0].guard.is_some() && mm.arms.iter().skip(1).all(|a| a.guard.is_none()) {
+                    let a0 = &mm.arms[0];
+                    let (gs1, ge1) = self.src.range(a0.guard.as_ref().unwrap().1.span());
+                    let (bs1, be1) = self.src.range(a0.body.span());
+                    let gtxt = norm_ws(&self.src.text[gs1..ge1]);
+                    let btxt = norm_ws(&self.src.text[bs1..be1]);
+                    let untouched = |t: &str| !(t.contains(".lock(") || t.contains(".try_lock(") || t.contains("!(") || t.contains("|| {") || t.contains("async") || t.contains(".await")
+                        || self.spec.rules.call.keys().any(|c| t.contains(&format!("{}(", c))) || self.spec.rules.path.keys().any(|c| t.contains(c.as_str())));
+                    if untouched(&gtxt) && untouched(&btxt) {
+                        let (ms, me) = self.src.range(mm.span());
+                        let (a0s, a0e) = self.src.range(a0.span());
+                        // end of the first arm including its comma
+                        let mut arm_end = a0e;
+                        while arm_end < me && self.src.text.as_bytes()[arm_end].is_ascii_whitespace() { arm_end += 1; }
+                        if arm_end < me && self.src.text.as_bytes()[arm_end] == b',' { arm_end += 1; }
+                        self.edit(ms, ms, format!("if {} {{ {} }} else {{ ", gtxt, btxt), -3);
+                        self.edit(a0s, arm_end, String::new(), 0);
+                        self.edit(me, me, " }".to_string(), 3);
+                        self.notes.push(format!("R27 leading `_ if G` arm at {}:{} rewritten as if/else around the match", self.src.rel, self.src.line_of(a0s)));
+                        // the remaining arms are visited as usual; the removed arm's text is not
+                        self.visit_expr(&mm.expr);
+                        for a in mm.arms.iter().skip(1) { self.visit_pat(&a.pat); self.visit_expr(&a.body); }
+                        return;
+                    }
+                }
+                let mut plan: Vec<(usize, usize)> = vec![];   // (guarded arm, fall-through arm)
+                let mut ok = true;
+                for (k, a) in mm.arms.iter().enumerate() {
+                    if a.guard.is_none() { continue; }
+                    let mut hk = vec![];
+                    if !heads(&a.pat, &mut hk) || hk.len() != 1 { ok = false; break; }
+                    let mut target = None;
+                    for (j, b) in mm.arms.iter().enumerate().skip(k + 1) {
+                        let wild = matches!(b.pat, syn::Pat::Wild(_));
+                        let mut hb = vec![];
+                        let known = heads(&b.pat, &mut hb);
+                        if wild || (known && hb.contains(&hk[0])) { if b.guard.is_some() || (!wild && binds(&b.pat)) { ok = false; } else { target = Some(j); } break; }
+                        if !known { ok = false; break; }
+                    }
+                    match target { Some(j) if ok => plan.push((k, j)), _ => { ok = false; break; } }
+                }
+                // the guard and the duplicated fall-through body are copied as text: they must not contain anything the rewriter would touch
+                if ok {
+                    for (k, j) in &plan {
+                        let g = mm.arms[*k].guard.as_ref().unwrap();
+                        let (s1, e1) = self.src.range(g.1.span());
+                        let (s2, e2) = self.src.range(mm.arms[*j].body.span());
+                        for t in [&self.src.text[s1..e1], &self.src.text[s2..e2]] {
+                            if t.contains(".lock(") || t.contains(".try_lock(") || t.contains('!') && t.contains("!(") || t.contains("||") && t.contains("|| {") || t.contains("async") || t.contains(".await")
+                                || self.spec.rules.call.keys().any(|c| t.contains(&format!("{}(", c))) || self.spec.rules.path.keys().any(|c| t.contains(c.as_str())) { ok = false; }
+                        }
+                    }
+                }
+                if ok {
+                    for (k, j) in plan {
+                        let a = &mm.arms[k];
+                        let (gs, ge) = { let g = a.guard.as_ref().unwrap(); let (s1, _) = self.src.range(g.0.span()); let (_, e1) = self.src.range(g.1.span()); (s1, e1) };
+                        let gtxt = { let g = a.guard.as_ref().unwrap(); let (s1, e1) = self.src.range(g.1.span()); self.src.text[s1..e1].to_string() };
+                        let (bs, be) = self.src.range(a.body.span());
+                        let (es, ee) = self.src.range(mm.arms[j].body.span());
+                        let else_txt = norm_ws(&self.src.text[es..ee]);
+                        self.edit(gs, ge, String::new(), 0);                                   // drop ` if G`
+                        self.edit(bs, bs, format!("{{ if {} {{ ", norm_ws(&gtxt)), -2);       // `=> { if G { B } else { E } }`
+                        self.edit(be, be, format!(" }} else {{ {} }} }}", else_txt), 2);
+                        self.notes.push(format!("R27 guarded arm at {}:{} rewritten as if/else (falls through to the arm at line {})", self.src.rel, self.src.line_of(gs), self.src.line_of(es)));
+                    }
+                } else {
+                    self.unmodelled_closures += 1;
+                    self.notes.push(format!("match with a guarded arm at {}:{}: the verifier is incomplete on guards and the arm cannot be rewritten (failures in this function are not believed)", self.src.rel, self.src.line_of(s0)));
+                }
             }
             Expr::Async(a) => {
                 // R24: an `async` block that is not the one being lifted is a value: nothing inside it runs when the enclosing function
